@@ -11,7 +11,7 @@ class C07(Prop):
     assumptions = ['accept/reject outcomes are steered through the log-likelihoods handed to iterate() (huge for an acceptance, -inf or '
                    'tiny for a rejection); the event fed to the model is the outcome observed on the real algorithm',
                    'sources and log-likelihoods are opaque tokens in the model; the harness maps recorded tensor columns back to proposals']
-    unproved = ['the recorded chain samples the posterior (follows from C05 and C06 by the Metropolis-Hastings argument): tested by comparing '
+    unproved = ['convergence of a finite chain to the posterior (invariance of the posterior under the sampler\'s kernel IS proved in Props/C07Stationary from the detailed balance of C05): tested by comparing '
                 'expectations over a real chain (six-station polarity data, real forward task) with likelihood-weighted random sampling of 4e5 '
                 'sources, in units of the combined Monte Carlo error (batch means): one 3000-entry double-couple chain in the quick tier, 20000-entry '
                 'double-couple and full-tensor chains in the thorough tier']
